@@ -351,7 +351,9 @@ class OptionManager():
         """ Find options with specific values for options,
             e.g. month=1 will search month equal to 1.
         """
-        kw = {k: f"^{v}$" for k, v in kwargs.items()}
+        # Exact match: the value is not a regular expression
+        kw = {k: "^" + re.escape(re.sub("\\[|\\]", "", str(v))) + "$"
+              for k, v in kwargs.items()}
         return self.search(**kw)
 
     def match(self, other_task, exclude=[], **kwargs):
